@@ -13,7 +13,7 @@ import (
 // Verdict: every DAG on 3 (thorough: 4) services, every edge realised by each of 6 kinds, every scope
 // assignment. Histories: HIST-X to fixpoint over {Get, GetInContext(A), GetInContext(B)} x services.
 
-var c05kinds = []string{"ctor", "field", "call", "tagged", "decorator-svc", "decorator-tagged"}
+var c05kinds = []string{"ctor", "field", "call", "tagged", "decorator-svc", "decorator-tagged", "tagged-field", "tagged-call"}
 var c05scopes = []*string{nil, P("shared"), P("contextual"), P("non_shared")}
 
 func c05names(n int) []string { return []string{"sa", "sb", "sc", "sd"}[:n] }
@@ -137,6 +137,27 @@ func c05cfg(n int, es [][2]int, kinds []int, scopes []int) *Cfg {
 				b.Tags = append(b.Tags, Tag{Name: t})
 			}
 			a.Args = append(a.Args, "!tagged "+t)
+		case "tagged-field", "tagged-call":
+			t := "tg-" + b.Name
+			if !hasTag(b, t) {
+				b.Tags = append(b.Tags, Tag{Name: t})
+			}
+			if c05kinds[kinds[ei]] == "tagged-call" {
+				a.Calls = append(a.Calls, Call{Method: "Set2", Args: []any{"x", "!tagged " + t}})
+				break
+			}
+			f := ""
+			for _, cand := range []string{"F1", "f3", "F2"} {
+				used := false
+				for _, kv := range a.Fields {
+					used = used || kv.K == cand
+				}
+				if !used {
+					f = cand
+					break
+				}
+			}
+			a.Fields = append(a.Fields, KV{f, "!tagged " + t})
 		case "decorator-svc":
 			t := "dec-" + a.Name + "-" + b.Name
 			a.Tags = append(a.Tags, Tag{Name: t})
@@ -166,6 +187,18 @@ func c05verdict(w *W, c *C, id string, n int, es [][2]int, kinds []int, scopes [
 	if br.Panic != "" {
 		c.Violation("panic", "tool panicked ("+id+"):\n"+br.Panic, fm, nil)
 		return
+	}
+	// nothing is missing in these configurations: the ignore flags change neither the verdict nor the report
+	for _, flags := range [][]string{{"--ignore-missing-params", "--ignore-missing-services"}} {
+		if c05bare || c05creation != 0 {
+			break // once per relation is enough
+		}
+		fb := w.Build(files, flags...)
+		c.Count("evaluations_extra")
+		if fb.Exit != br.Exit || strings.Join(ErrorLines(fb.Out), "\n") != strings.Join(ErrorLines(br.Out), "\n") {
+			c.Violation("scope-verdict-depends-on-flags", fmt.Sprintf("%v changes the scope verdict (%s): exit %d vs %d\n%s", flags, id, fb.Exit, br.Exit, strings.Join(ErrorLines(br.Out), "\n")), fm, map[string]any{"flags": flags})
+			break
+		}
 	}
 	cl := closure(n, es)
 	want := map[string]bool{}
@@ -281,7 +314,7 @@ func init() {
 							c05bare = true
 							c05verdict(w, c, id+"/bare", 3, es, kinds, sc)
 							c05bare = false
-							if kn := c05kinds[k]; kn == "field" || kn == "call" || kn == "decorator-svc" || kn == "decorator-tagged" {
+							if kn := c05kinds[k]; kn == "field" || kn == "call" || kn == "decorator-svc" || kn == "decorator-tagged" || kn == "tagged-field" || kn == "tagged-call" {
 								// the same relation when the services are created from a value / a type only (they take no
 								// constructor arguments, but fields, calls, tags and decorators inject all the same)
 								c05creation = 1
